@@ -1131,6 +1131,15 @@ class Interp:
             if a is b:
                 return True
             raise Unsupported("equality of symbolic sequences")
+        for x, y in ((a, b), (b, a)):
+            # an opaque individual compared with a plain constant: the protocol may answer (`eq_const`), e.g. an
+            # abstract key event that may or may not be the string "esc"; without the hook: unequal, as before
+            if isinstance(x, SOpaque) and not isinstance(y, Sym):
+                from .api import PROTOCOLS
+
+                p = PROTOCOLS.get(x.kind)
+                if p is not None and hasattr(p, "eq_const"):
+                    return p.eq_const(st, x, y)
         if isinstance(a, Sym):
             r = a == b
         elif isinstance(b, Sym):
